@@ -536,3 +536,55 @@ def r3h_wrappers_always_analyse(ctx):
             r.violate(key, "%s can return without calling the analysis entry" % cf.id)
     r.floor("wrappers of the analysis entry", n, 2)
     return r
+
+
+def r3i_every_analysis_parses(ctx):
+    r = Result("R3i", "(i) the analysis entry hands the text it was given to the Python parser on every path (the parser call "
+                      "post-dominates the entry in the view with local helpers spliced in): an early return on a matching content "
+                      "hash / cache stamp keeps the index of whatever text was analysed last under that stamp, and stamps are also "
+                      "written by read-only paths with on-disk text. (ii) the stored text of a document is dropped only by a "
+                      "function the scan and the analysis cannot reach (the close handler's clean-up), or behind a capacity test of "
+                      "the store (eviction): text dropped at the end of the scan discards the buffer of a document opened while the "
+                      "scan ran, and position-based features fall back to the on-disk text")
+    ei = _entry(ctx)
+    if ei.entry is None:
+        r.anchor_missing("analysis entry", "not found")
+        return r
+    E = ei.entry
+    g = ctx.inl(E, depth=2)
+    sites = [bb for bb, c in g.calls() if (c.get("res") or "").startswith("rustpython_parser::")]
+    pd = g.postdominators().get(0, set())
+    if sites and any(bb in pd for bb in sites):
+        r.ok(sample={"entry": E.id.split("::")[-1], "parser_call_postdominates_entry": True})
+    else:
+        r.violate("R3i|%s|returns-without-parsing" % E.id, "%s can return without parsing the text it was given" % E.id)
+    # (ii)
+    db = ei.db
+    ts = db.text_store()
+    if ts is None:
+        r.anchor_missing("text store", "no unique PathBuf -> Arc<String> map")
+        return r
+    from .r10 import discovery_fn
+    roots = {E.id}
+    walk = discovery_fn(ctx)
+    if walk is not None:
+        roots.add(walk.id)
+    reach = ctx.callgraph().reach(sorted(roots), include_spawn=True)
+    n = 0
+    for op in db.ops_by_map.get(ts, []):
+        if op.mode != "X" or op.method not in ("remove", "remove_if", "retain", "clear"):
+            continue
+        n += 1
+        f = op.fn
+        dom = f.dominators().get(op.bb, set())
+        cap = any(o2.fn.id == f.id and o2.method == "len" and o2.bb in dom for o2 in db.ops_by_map.get(ts, []))
+        key = "R3i|%s|%s.%s" % (f.root, ts, op.method)
+        if cap:
+            r.ok(sample={"drop": key, "why": "behind a capacity test"})
+        elif f.root not in reach and f.id not in reach:
+            r.ok(sample={"drop": key, "why": "not reachable from the scan or the analysis"})
+        else:
+            r.violate(key, "%s drops stored document text at %s: it is reachable from the scan / the analysis and is not an "
+                           "eviction behind a capacity test" % (f.root, ctx.bin.span_str(op.call["span"])))
+    r.floor("drops from the text store", n, 2)
+    return r
